@@ -1069,6 +1069,28 @@ func (c *ExprCtx) call(x CCall) TV {
 				return TV{V: True, Typ: types.Typ[types.Bool]}
 			}
 			return TV{V: False, Typ: types.Typ[types.Bool]}
+		case "callfresh":
+			// callfresh(v): the storage of slice / pointer v comes from an allocation executed by the function
+			// under contract during this call (make / new / composite literal in its own body): it cannot alias
+			// the receiver's state or anything handed out by an earlier call. Decided on the allocation constant.
+			tv := c.expr(x.Args[0])
+			var base T
+			switch v := tv.V.(type) {
+			case *SliceV:
+				base = v.Base
+			case *PtrV:
+				base = v.A.Base
+			default:
+				c.fail("callfresh: slice or pointer expected")
+			}
+			bs := base.S
+			if strings.HasPrefix(bs, "(arrview ") && strings.HasSuffix(bs, ")") {
+				bs = strings.TrimSuffix(strings.TrimPrefix(bs, "(arrview "), ")")
+			}
+			if ap, ok := e.allocAt[bs]; ok && ap.fr == c.fr {
+				return TV{V: True, Typ: types.Typ[types.Bool]}
+			}
+			return TV{V: False, Typ: types.Typ[types.Bool]}
 		case "ghost":
 			n, ok := x.Args[0].(CIdent)
 			if !ok {
